@@ -5,7 +5,8 @@
 // with const / non-const references, every non-empty index subset (+ one permuted index list), K = 0,1,2 and three
 // result kinds (double, Vector2d, VectorXd).  For each call it prints
 //   CASE <id> ...   the input in the form the extracted Coq model reads (extract/C08/driver.ml)
-//   RES  <id> ...   value, J, H and the caller's argument objects after the call (hex floats)
+//   RES  <id> ...   value, J, H and the caller's argument objects after the call (hex floats); for K = 2 also the J of a
+//                   dr<1> call on the same map and point (section K1J): diff_impl.hpp:79 makes the two identical
 // scripts/props_C08.py feeds the CASE lines to the model and compares (exactly on the "exact" stream whose
 // coordinates are 0 or +-2^m so that no floating-point operation rounds; to a rounding allowance otherwise), and
 // checks the property itself against the closed-form derivatives of the polynomial.
@@ -338,6 +339,7 @@ void one_call(hv::Rng & rng, const Tup & vals0, int rep, int stream, const char 
   std::puts(cs.c_str());
 
   std::string rs = std::string("RES ") + idb;
+  std::string k1j;
   auto mkwrt = [&]<std::size_t... I>(std::index_sequence<I...>) { return smooth::wrt(cref<CMask, I>(std::get<I>(vals))...); };
   constexpr auto seqN = std::make_index_sequence<N>{};
   if constexpr (K == 0) {
@@ -373,8 +375,22 @@ void one_call(hv::Rng & rng, const Tup & vals0, int rep, int stream, const char 
       print_J(rs, J);
       print_H(rs, H);
     }
+    // diff_impl.hpp:79: the first-derivative output of the K = 2 routine is the output of the K = 1 routine
+    // (theorem C08_k2_jac_is_k1_jac).  Same map, same point, fresh caller objects: props_C08.py compares the two
+    // J bit for bit (section K1J of the RES line; the model prints no such section).
+    Tup vals1   = vals0;
+    auto mkwrt1 = [&]<std::size_t... I>(std::index_sequence<I...>) { return smooth::wrt(cref<CMask, I>(std::get<I>(vals1))...); };
+    if constexpr (UseIdx) {
+      auto [fv1, J1] = smooth::diff::dr<1, smooth::diff::Type::Numerical>(f, mkwrt1(seqN), idx);
+      print_J(k1j, J1);
+    } else {
+      auto w1        = mkwrt1(seqN);
+      auto [fv1, J1] = smooth::diff::dr<1, smooth::diff::Type::Numerical>(f, w1);
+      print_J(k1j, J1);
+    }
   }
   print_args(rs, vals);
+  if (!k1j.empty()) rs += " K1J" + k1j;
   std::puts(rs.c_str());
   ++g_cases;
 }
